@@ -1,4 +1,5 @@
 import copy
+import collections
 from kvfile import KVFile
 
 
@@ -60,7 +61,10 @@ def duplicate(
         for resource in package:
             if resource.res.name == source_:
                 db = KVFile()
-                yield saver(resource, db, batch_size)
+                saved = saver(resource, db, batch_size)
+                yield saved
+                # the copy holds every row, also those a later step did not ask for
+                collections.deque(saved, maxlen=0)
                 if duplicate_to_end:
                     dbs.append(db)
                 else:
